@@ -26,7 +26,7 @@ ASSUMPTIONS = ['literal segments only over [A-Za-z0-9_-] (O1)',
                'paths contain no newline (outside the stated alphabet)']
 REQUIRED_REACH = ['match:redirect', 'match:rewrite', 'match:strict', 'nomatch:redirect',
                   'nomatch:rewrite', 'nomatch:strict', 'grammar:rejected', 'grammar:accepted',
-                  'e2e:params-compared', 'mode-established-by:route', 'mode-established-by:embedded']
+                  'e2e:params-compared', 'e2e:redirect-followed', 'mode-established-by:route', 'mode-established-by:embedded']
 
 MODES = ('redirect', 'rewrite', 'strict')
 ALPHABET_Q = ['/', 'a', '1', '.', '-', '+', ' ', 'e', 'E', 'é']
@@ -388,6 +388,25 @@ def end_to_end(sh, rng, n):
                                      {'e2e': pattern, 'mode': mode, 'path': path})
             elif ex.status in (301, 302, 308, 307):
                 sh.hit('e2e:redirected')
+                # tolerated slashes: following the redirect must hand the handler the conversions of the same segments
+                from urllib.parse import urlsplit, unquote_to_bytes
+                loc = urlsplit(ex.header('Location') or '')
+                try:
+                    path2 = unquote_to_bytes(loc.path).decode('utf8')
+                except UnicodeError:
+                    path2 = None
+                if path2:
+                    got.clear()
+                    ex2 = request(app, 'GET', path2)
+                    canon = '/' + '/'.join(x for x in path.split('/') if x) + ('/' if branch else '')
+                    want = app.routes[0].match_path(canon)
+                    if ex2.status == 200 and 'v' in got:
+                        sh.hit('e2e:redirect-followed')
+                        if want is None or got['v'] != want or um.check_values(elements, branch, mode, canon, got['v']):
+                            sh.violation('C05/endpoint-params-differ-after-redirect',
+                                         'endpoint of %r [%s] asked for %r, redirected to %r, received %r; the segments convert to %r'
+                                         % (pattern, mode, _short(path), ex.header('Location'), _short(got.get('v')), _short(want)),
+                                         {'e2e': pattern, 'mode': mode, 'path': path})
             elif ex.status == 404:
                 sh.hit('e2e:404')
                 if expect is not None and um.match(elements, branch, mode, path, 'strict') and mode != 'strict':
@@ -438,7 +457,7 @@ def run_shard(sh, spec):
         if tier == 'quick':
             random_cases(sh, rng, 150, 40)
             grammar_cases(sh, rng, 60)
-            end_to_end(sh, rng, 40)
+            end_to_end(sh, rng, 200)
         else:
             random_cases(sh, rng, 4000, 60)
             grammar_cases(sh, rng, 800)
